@@ -16,6 +16,7 @@ client i starts at address i, the server is address 1000.
   rd <ep>                            drain the reader (past deadline)             -> id,id,… eof|to
   probe <ep>                         WriteMsg of 1 byte; destination of the datagram       -> dst=<addr> | err
   close <ep>                         local Close                                           -> ok
+  setctr <ep> <n>                    set this end's send counter (as after that many packets)   -> ok
   cwr <ep> <writers> <each>          that many goroutines call WriteMsg concurrently        -> ok n=<packets>
   scan                               search every datagram emitted so far for application data,
                                      the server name, certificate keys/signatures  -> clean | leak
@@ -190,6 +191,11 @@ def step (why : Bool) (w0 : World) (ws : List String) : World × String :=
       | some e => (w.set r { e with closed := true }, "ok")
       | none => (w, "bad-op")
     | none => (w, "bad-op")
+  | ["setctr", ep, n] => match parseEp ep, n.toNat? with
+    | some r, some n => match w.get r with
+      | some e => (w.set r { e with txCtr := n }, "ok")
+      | none => (w, "bad-op")
+    | _, _ => (w, "bad-op")
   | ["cwr", ep, nw, each] => match parseEp ep, nw.toNat?, each.toNat? with
     -- concurrent writers: seals are serialised by the session lock, so the packets carry
     -- nw·each distinct consecutive counters (`C03_counters_strict`); their order is the scheduler's
